@@ -8,7 +8,8 @@
      consume(f) skip(f)       main side, runner hook in ParallelRunner.run's loop         (hooked runs only)
      add(f,rec,dir)           LintedDir.add           } recorded by wrappers the harness installs in the main
      persist(f,pre,post,main) LintedFile.persist_tree } process (no source change), so present in every run
-     rskip(f)                 Linter.render_file raising SQLFluffSkipFile in the main process
+     rskip(f)                 Linter.render_file raising SQLFluffSkipFile in the main process (serial runs, and pool
+                              runs that render in the main process while feeding the pool: Runner!SkipAtSubmit)
    Files, records and file contents are interned to small integers by the recorder; equal ids <=> equal
    values.  The state is Runner's; each event is bound to the Runner action it witnesses (TakeAt, FinishOf,
    Skip, Drop, Add, PersistTo), and Runner's `outcome` -- the fixed function of the file -- is what the
@@ -40,9 +41,11 @@ OutOf(tr, f) ==
 Load(k) ==
   IF k > Len(Traces)
   THEN /\ tasks' = <<>> /\ outcome' = <<>> /\ nw' = 0 /\ mode' = "serial" /\ op' = "lint" /\ queue' = <<>>
+       /\ mainrender' = FALSE /\ ready' = <<>>
        /\ running' = <<>> /\ done' = {} /\ files' = <<>>
   ELSE LET tr == Traces[k] IN
        /\ tasks' = tr.tasks
+       /\ mainrender' = FALSE /\ ready' = <<>>     \* where rendering happens is not assumed: see rskip below
        /\ outcome' = [f \in 1..tr.nfiles |-> OutOf(tr, f)]
        /\ nw' = tr.n /\ mode' = tr.mode /\ op' = (IF tr.apply THEN "fix" ELSE "lint")
        /\ queue' = (IF tr.hook THEN [i \in 1..Len(tr.tasks) |-> i] ELSE <<>>)
@@ -81,7 +84,7 @@ Clause ==
     [] Ev.ev = "consume" ->
          IF pending # 0 THEN "PersistFollowsAdd"
          ELSE IF DoneOf(Ev.f) = {} THEN "ConsumedOnceAfterFinish"
-         ELSE IF mode = "ordered" /\ tasks[ncons + (IF held.t # 0 THEN 2 ELSE 1)] # Ev.f THEN "OrderedMapYieldsInOrder"
+         ELSE IF mode = "ordered" /\ tasks[LeastOf(Outstanding \ {held.t})] # Ev.f THEN "OrderedMapYieldsInOrder"
          ELSE IF held.t # 0 /\ ~O(held.t).raise THEN "ResultNeitherAddedNorSkipped"
          ELSE "ok"
     [] Ev.ev = "skip" ->
@@ -103,7 +106,11 @@ Clause ==
          ELSE IF Ev.pre # files[Ev.f] THEN "WriteAfterAdd"
          ELSE IF Ev.post # B.content[Ev.f] THEN "WrittenAgree"
          ELSE "ok"
-    [] Ev.ev = "rskip" -> "ok"          \* main-process render_file raised SQLFluffSkipFile (serial runs; informative)
+    [] Ev.ev = "rskip" ->               \* render_file raised SQLFluffSkipFile in the main process
+         IF ~Tr.hook THEN "ok"          \* serial / unhooked runs: informative; the end-of-trace clauses decide
+         ELSE IF QueuedOf(Ev.f) = {} THEN "SkippedBeforeSubmit"      \* pool run rendering in main: Runner!SkipAtSubmit
+         ELSE IF ~O(queue[Least(QueuedOf(Ev.f))]).skip THEN "SkippedIffSerialSkipped"
+         ELSE "ok"
     [] OTHER -> "UnknownEvent"
 
 Bump == seqs' = [seqs EXCEPT ![Ev.src] = Ev.seq]
@@ -117,7 +124,8 @@ Apply1 ==
     [] Ev.ev = "add"     -> /\ Add(IF Tr.hook THEN held ELSE PickDone(Ev.f), Ev.rec)
                             /\ held' = NoTask /\ UNCHANGED nworkers
     [] Ev.ev = "persist" -> PersistTo(Ev.post) /\ UNCHANGED <<held, nworkers>>
-    [] Ev.ev = "rskip"   -> UNCHANGED <<vars, held, nworkers>>
+    [] Ev.ev = "rskip"   -> /\ IF Tr.hook THEN SkipAtSubmit(Least(QueuedOf(Ev.f))) ELSE UNCHANGED vars
+                            /\ UNCHANGED <<held, nworkers>>
 
 (* End of trace: the contract's outcome clauses (Runner!RecordsAgree etc. with outcome = serial run), on the
    state reached through the events and on what the run finally reported.                                *)
@@ -148,6 +156,7 @@ EndClause ==
 NextTrace == tid' = tid + 1 /\ pc' = 0 /\ Reset(tid + 1)
 TInit == /\ tid = 0 /\ pc = 0 /\ rej = <<>> /\ nacc = 0 /\ fin = FALSE
          /\ tasks = <<>> /\ outcome = <<>> /\ nw = 0 /\ mode = "serial" /\ op = "lint" /\ queue = <<>>
+         /\ mainrender = FALSE /\ ready = <<>>
          /\ running = <<>> /\ done = {} /\ files = <<>>
          /\ consumed = {} /\ dropped = {} /\ skipped = 0 /\ pending = 0 /\ persisted = {}
          /\ comp = <<>> /\ ncons = 0 /\ aborted = FALSE /\ emitted = FALSE
